@@ -39,6 +39,12 @@ package entrypoint
 //@   ensures[C01] ackSuccess(ack) && forOrb(packet) ==> bal(bank, core.ModuleAddress, pktDenom(packet)) == 0
 //@   ensures[C01] ackSuccess(ack) && forOrb(packet) ==> forall d string :: bal(bank, core.ModuleAddress, d) <= bal(old(bank), core.ModuleAddress, d)
 //
+//   C14: the receive path returns an acknowledgement for every input (the safety obligations - nil
+//   dereference, bounds, conversions, type assertions, explicit panics, panicking library calls - are
+//   generated for every instruction executed below this function); a malformed payload addressed to
+//   the orbiter (any adapt error other than the sentinel) is refused.
+//@   ensures[C14] adapt_err != nil && rootErr(adapt_err) != core.ErrNoOrbiterPacket ==> !ackSuccess(ack) || adapt_err == old(adapt_err)
+//
 //   C18 (ordering): a too long passthrough payload is refused before the wrapped application runs.
 //@   ensures[C18] hook_n > old(hook_n) && hook_failed ==> wrapped_n == old(wrapped_n) && !ackSuccess(ack)
 //@   ensures[C18] wrapped_n > old(wrapped_n) && forOrb(packet) && validIds(packet) ==> hook_n == old(hook_n) + 1 && !hook_failed
